@@ -40,7 +40,7 @@ def _rows(chk, m, info, p, stored, res, regs, age_iv, void_iv, rest, covered, ta
     for e, rel in rest:
         leaves = [fmt(k) for k in e.terms]
         if info['real'] is not None and any(fmt(info['real']) == l for l in leaves) and \
-                any(l.endswith('as_of') or l.endswith('void_after') for l in leaves):
+                any(l in (fmt(m.leaf_self('as_of')), fmt(m.leaf_self('void_after'))) for l in leaves):
             chk.ob('C06.D2', 'now:atom-on-realtime', False, p.where[2],
                    'status/age decision compares the REALTIME reading with a record instant: %r %s 0' % (e, rel))
     for r in regs:
